@@ -70,11 +70,11 @@ def run(ctx):
         bad = bad or "fetch_add order %s" % op.order
     pd = [p["did"] for p in f.params][0]
     for c in wakes + waits:
-        k = f.key(f.args(c)[1], resolve=True)
+        k = list_key(P, f, f.args(c)[1])
         mine = key_mentions(k, lambda x: x[0] == "f" and x[1] == B and x[2] == "waiters" and x[3] == ("*", ("var", f.params[0]["name"], pd)))
         if not mine:
             bad = bad or "`%s` does not use this barrier's waiter list" % c.text
-    if len({f.key(f.args(c)[1], resolve=True) for c in wakes + waits}) != 1:
+    if len({list_key(P, f, f.args(c)[1]) for c in wakes + waits}) != 1:
         bad = bad or "the wait path and the wake path select their waiter list by different expressions"
     o.check(bad is None, "table count {1,2,3,5} x 12 arrivals", bad, site=op.node, construct="barrier arrival")
 
@@ -96,15 +96,14 @@ def run(ctx):
                "one list for all rounds + one-at-a-time release: the serial fiber of round k releases F, F re-enters round k+1 and enqueues on the "
                "same list before straggler S of round k (arrived, not yet enqueued) does; the serial fiber pops F's round-k+1 entry as its last "
                "waiter: F leaves round k+1 early and S is never released (replayed: D7)")
-    qk_wait = [f.key(f.args(w)[1], resolve=True) for w in waits]
-    qk_wake = [f.key(f.args(w)[1], resolve=True) for w in wakes]
+    qk_wait = [list_key(P, f, f.args(w)[1]) for w in waits]
+    qk_wake = [list_key(P, f, f.args(w)[1]) for w in wakes]
     depends = lambda k: key_mentions(k, lambda x: x[0] == "atomic" or (x[0] == "var" and x[1] in ("new_value",)))
 
     def mentions_arrival(k):
-        # the list expression mentions the arrival number: the fetch_add result or a local computed from it
-        if key_mentions(k, lambda x: x[0] == "atomic"):
-            return True
-        return False
+        # the list expression mentions the arrival number: the ticket returned by the arrival fetch-add (a fresh load of
+        # the counter is NOT the caller's ticket: other fibers may have arrived since)
+        return key_mentions(k, lambda x: x[0] == "atomic" and x[1] == "fetch_add")
     cert_a = all(mentions_arrival(k) for k in qk_wait + qk_wake)
     wk = P.fn(WAKEQ)
     sc = wk.calls(("fiber_manager_schedule", "fiber_scheduler_schedule"))
@@ -114,14 +113,34 @@ def run(ctx):
     if cert_a:
         # the selection must be constant within a round and differ between consecutive rounds
         bad = None
-        subs = []
+        from rules import is_param_load
+        subs = []   # (call, evaluator(atom) -> list index)
         for c in wakes + waits:
             e = f.resolve(f.args(c)[1])
+            found = False
             for n in e.walk():
                 if n.k == "ArraySubscriptExpr":
-                    subs.append((c, n.kids[1]))
-        if len(subs) != len(wakes + waits):
-            raise AnalysisBroken("barrier round separation: list selection is not a subscript")
+                    subs.append((c, (lambda atom, ix=n.kids[1]: ev(f, ix, atom))))
+                    found = True
+                    break
+            if not found and e.k == "CallExpr" and e.callee and P.has_fn(e.callee):
+                g = P.fn(e.callee)
+                rets = g.returns()
+                gsub = [n for n in (g.resolve(rets[0].kids[0]).walk() if len(rets) == 1 and rets[0].kids else []) if n.k == "ArraySubscriptExpr"]
+                if gsub:
+                    def evaluator(atom, e=e, g=g, ix=gsub[0].kids[1]):
+                        pairs = []
+                        for i, p in enumerate(g.params):
+                            try:
+                                pairs.append((is_param_load(g, p["name"]), ev(f, f.args(e)[i], atom)))
+                            except Unevaluable:
+                                pass
+                        ga = atom_from(pairs)
+                        return ev(g, ix, lambda n: ga(n) if ga(n) is not None else atom(n))
+                    subs.append((c, evaluator))
+                    found = True
+            if not found:
+                raise AnalysisBroken("barrier round separation: list selection is not a subscript")
         for count in (1, 2, 3, 5):
             idx = {}
             for old in range(0, 4 * count + 2):
@@ -131,7 +150,7 @@ def run(ctx):
                     if (c in wakes) != serial:
                         continue
                     try:
-                        v = ev(f, ix, atom)
+                        v = ix(atom)
                     except Unevaluable:
                         raise AnalysisBroken("barrier round separation: cannot evaluate the list index")
                     rnd = old // count
@@ -155,6 +174,28 @@ def run(ctx):
                construct="wait and wake lists differ")
     else:
         raise AnalysisBroken("barrier round separation: shape is neither the defective one nor a recognised certificate")
+
+
+def subst(key, mapping):
+    if not isinstance(key, tuple):
+        return key
+    if key[0] == "var" and key[2] in mapping:
+        return mapping[key[2]]
+    return tuple(subst(x, mapping) if isinstance(x, tuple) else x for x in key)
+
+
+def list_key(P, f, arg):
+    """access path of the waiter list; a call to a library helper is replaced by the helper's returned path with the
+    arguments substituted (one level), so that moving the selection into a helper does not change the verdict"""
+    k = f.key(arg, resolve=True)
+    if k[0] == "call" and P.has_fn(k[1]):
+        g = P.fn(k[1])
+        rets = g.returns()
+        if len(rets) == 1 and rets[0].kids:
+            rk = g.key(rets[0].kids[0], resolve=True)
+            mapping = {p["did"]: k[2 + i] for i, p in enumerate(g.params) if 2 + i < len(k)}
+            return subst(rk, mapping)
+    return k
 
 
 def thorough(ctx):
